@@ -231,6 +231,15 @@ func genWireCase(t *rapid.T, allowID15 bool) *WireCase {
 			c.ID15Tail = genBytesN(t, "id15tail", rapid.IntRange(0, 12).Draw(t, "id15taillen"))
 		}
 	}
+	if allowID15 && (m.ExtKind == "onebyte" || m.ExtKind == "twobyte") && rapid.IntRange(0, 99).Draw(t, "manyelems") == 57 {
+		// more elements than ids (ids repeat), more than 255 of them: nothing in the grammar bounds the count
+		n := rapid.SampledFrom([]int{255, 256, 257, 300, 700}).Draw(t, "manyelemsn")
+		m.Exts = m.Exts[:0]
+		for i := 0; i < n; i++ {
+			m.Exts = append(m.Exts, ExtElem{ID: uint8(1 + i%14), Val: []byte{byte(i), byte(i >> 8)}})
+		}
+		c.PadBefore = nil
+	}
 	if allowID15 && (m.ExtKind == "onebyte" || m.ExtKind == "twobyte") && len(m.Exts) >= 2 && len(m.Exts) <= 40 && rapid.IntRange(0, 5).Draw(t, "dupid") == 0 {
 		// the grammar does not forbid an id to occur twice in a block: both elements are decoded, in wire order
 		j := rapid.IntRange(1, len(m.Exts)-1).Draw(t, "dupat")
